@@ -60,6 +60,12 @@ fn log_hook(s: &str) {
     tracing::info!("{s}");
 }
 
+/// A child span of the current (step / hook) span that outlives the callback: what a step does that
+/// spawns an instrumented background task. It is closed when the schedule releases its pseudo-gate.
+fn span_hook(name: &str) -> Box<dyn std::any::Any> {
+    Box::new(tracing::info_span!("background job", name))
+}
+
 fn profile() -> Profile {
     Profile {
         max_features: 2,
@@ -89,9 +95,15 @@ fn profile() -> Profile {
 fn run_one(input: &Input, want_sample: bool) -> Value {
     let mut ta = Tape::new(input.a.clone());
     let case = gen_case(&mut ta, &profile());
-    lab::with_lab(|l| l.log_hook = Some(log_hook));
+    lab::with_lab(|l| {
+        l.log_hook = Some(log_hook);
+        l.span_hook = Some(span_hook);
+    });
     let (parser, delivered) = driver::prepare(&case);
-    lab::with_lab(|l| l.log_hook = Some(log_hook));
+    lab::with_lab(|l| {
+        l.log_hook = Some(log_hook);
+        l.span_hook = Some(span_hook);
+    });
     let queue = QW::default();
     let opts = cli::Opts::<cli::Empty, runner::basic::Cli, cli::Empty, cli::Empty> { re_filter: None, tags_filter: None, parser: cli::Empty, runner: driver::build_cli(&case), writer: cli::Empty, custom: cli::Empty };
     let cuc = Cucumber::<W, _, (), _, _, cli::Empty>::custom(PW(parser), driver::build_runner(&case), queue.clone()).with_cli(opts).init_tracing();
@@ -247,6 +259,9 @@ fn run_one(input: &Input, want_sample: bool) -> Value {
     if ambient.is_some() {
         labels.push("ambient_user_span");
     }
+    if log.quiescent.iter().any(|q| q.action.starts_with("span:")) {
+        labels.push("span_outlives_its_callback");
+    }
     let desc = case.describe();
     let sched: String = log.quiescent.iter().map(|q| format!("{},", q.choice)).collect();
     json!({
@@ -326,10 +341,47 @@ impl Property for C20 {
     }
 }
 
+/// C04 ("the run always terminates") judged on the tracing build: the same cases, only the
+/// termination verdict is kept.
+struct C04T;
+
+impl Property for C04T {
+    fn id(&self) -> &'static str {
+        "C04"
+    }
+    fn saved_id(&self) -> &'static str {
+        "C04-tracing"
+    }
+    fn rule(&self) -> String {
+        "vtrace (crate built with feature `tracing`, Cucumber::run + init_tracing(), one process per case): the C20 cases - callbacks logging before / after their awaits and leaving child spans alive until the schedule closes them - judged for termination only: once every gate has been released and every held span closed the event stream must end. Non-trivial as for C20.".into()
+    }
+    fn tape_lens(&self, t: Tier) -> (usize, usize) {
+        C20.tape_lens(t)
+    }
+    fn cases(&self, tier: Tier) -> u64 {
+        match tier {
+            Tier::Quick => 600,
+            Tier::Thorough => 12_000,
+        }
+    }
+    fn run(&self, input: &Input, ctx: &Ctx) -> CaseOut {
+        let mut out = C20.run(input, ctx);
+        out.violations = out
+            .violations
+            .into_iter()
+            .filter(|v| v.sig == "C20/run-did-not-complete")
+            .map(|v| Violation::new("C04/tracing-build/run-did-not-complete".to_string(), v.msg))
+            .collect();
+        out
+    }
+}
+
 fn main() {
+    let _ = engine::HARNESS.set("vtrace");
     let args: Vec<String> = std::env::args().collect();
     let tier_of = |s: &str| if s == "thorough" { Tier::Thorough } else { Tier::Quick };
     let seed: u64 = std::env::var("VERIF_SEED").ok().and_then(|s| s.parse().ok()).unwrap_or(0);
+    let prop: &dyn Property = if args.get(2).is_some_and(|a| a == "C04") { &C04T } else { &C20 };
     match args.get(1).map(String::as_str) {
         Some("case") => {
             let mut s = String::new();
@@ -338,13 +390,13 @@ fn main() {
             let out = run_one(&input, args.get(2).is_some_and(|a| a == "sample"));
             println!("{out}");
         }
-        Some("run") => std::process::exit(engine::parent(&C20, tier_of(args.get(3).map_or("quick", String::as_str)), seed)),
+        Some("run") => std::process::exit(engine::parent(prop, tier_of(args.get(3).map_or("quick", String::as_str)), seed)),
         Some("worker") => {
             let cases = std::env::var("VERIF_CASES").ok().and_then(|s| s.parse().ok());
-            engine::worker(&C20, tier_of(&args[3]), seed, (args[4].parse().unwrap(), args[5].parse().unwrap()), cases);
+            engine::worker(prop, tier_of(&args[3]), seed, (args[4].parse().unwrap(), args[5].parse().unwrap()), cases);
         }
-        Some("saved") => engine::saved(&C20, tier_of(&args[3])),
-        Some("replay") => std::process::exit(engine::replay(&C20, &args[3])),
+        Some("saved") => engine::saved(prop, tier_of(&args[3])),
+        Some("replay") => std::process::exit(engine::replay(prop, &args[3])),
         _ => {
             eprintln!("usage: vtrace run|worker|saved|replay C20 ... | vtrace case");
             std::process::exit(2)
